@@ -12,6 +12,7 @@ import (
 	"strings"
 	"time"
 
+	"github.com/bokysan/socketace/v2/internal/server"
 	"github.com/bokysan/socketace/v2/internal/streams"
 	"github.com/gorilla/websocket"
 )
@@ -87,8 +88,154 @@ func wsPair() (client, srv *websocket.Conn, closeAll func(), err error) {
 	}
 }
 
+// scriptedRawConn answers successive Read calls from a script: a number = that many stream bytes, "e" = (0, io.EOF),
+// "x" = an error.  It models a multiplexed stream that may report end-of-stream while data is still buffered.
+type scriptedRawConn struct {
+	fakeConn
+	script []string
+	pos    int
+}
+
+func (c *scriptedRawConn) Read(p []byte) (int, error) {
+	if len(c.script) == 0 {
+		return 0, io.EOF
+	}
+	t := c.script[0]
+	c.script = c.script[1:]
+	switch t {
+	case "e":
+		return 0, io.EOF
+	case "x":
+		return 0, io.ErrUnexpectedEOF
+	}
+	n, _ := strconv.Atoi(t)
+	if n > len(p) {
+		n = len(p)
+	}
+	copy(p, streamBytes(c.pos, n))
+	c.pos += n
+	return n, nil
+}
+
+func execWrappers(f []string) (string, string, string, bool) {
+	switch f[0] {
+	case "mux":
+		if len(f) != 2 {
+			return "bad-op", "", "bad", false
+		}
+		script := strings.Split(f[1], ",")
+		want := 0 // data up to the genuine end: an "e" directly followed by data is spurious
+		for i := 0; i < len(script); i++ {
+			if script[i] == "x" || (script[i] == "e" && (i+1 >= len(script) || script[i+1] == "e" || script[i+1] == "x")) {
+				break
+			}
+			if script[i] != "e" {
+				n, _ := strconv.Atoi(script[i])
+				want += n
+			}
+		}
+		rd := streams.NewMuxStreamConnection(&scriptedRawConn{script: script})
+		var outs []string
+		got, mon := 0, ""
+		buf := make([]byte, 1<<20)
+		for i := 0; i < len(script)+2; i++ {
+			k, err := rd.Read(buf)
+			if err == io.EOF && k == 0 {
+				outs = append(outs, "eof")
+				break
+			}
+			if err != nil {
+				outs = append(outs, "err")
+				break
+			}
+			for j := 0; j < k; j++ {
+				if buf[j] != byte((got+j)%251) && mon == "" {
+					mon = fmt.Sprintf("byte at stream position %d altered", got+j)
+				}
+			}
+			got += k
+			outs = append(outs, strconv.Itoa(k))
+		}
+		if mon == "" && len(outs) > 0 && outs[len(outs)-1] == "eof" && got != want {
+			mon = fmt.Sprintf("end-of-stream reported after %d of %d bytes the stream had received", got, want)
+		}
+		return strings.Join(outs, " "), mon, "mux", got > 0
+	case "cf":
+		if len(f) != 4 || f[2] != "|" {
+			return "bad-op", "", "bad", false
+		}
+		chunks, err := parseNatList(f[1])
+		if err != nil {
+			return "bad-op", "", "bad", false
+		}
+		cc := &chunkConn{}
+		pos := 0
+		for _, n := range chunks {
+			cc.chunks = append(cc.chunks, streamBytes(pos, n))
+			pos += n
+		}
+		wrote := 0
+		under := &countingWriteConn{chunkConn: cc, wrote: &wrote}
+		c := server.VerifClientFirstConn(under)
+		var outs []string
+		got, mon := 0, ""
+		for _, o := range strings.Split(f[3], ",") {
+			if o == "w" {
+				available := len(cc.chunks) > 0 || got < pos
+				before := wrote
+				_, err := c.Write([]byte("hdr"))
+				if err == nil {
+					outs = append(outs, "w")
+					if !available && mon == "" {
+						mon = "the server wrote on a new logical stream before any byte from the client had arrived"
+					}
+					if wrote != before+3 && mon == "" {
+						mon = "Write reported success but the bytes were not handed to the stream"
+					}
+				} else {
+					outs = append(outs, "wfail")
+				}
+				continue
+			}
+			n, e := strconv.Atoi(strings.TrimPrefix(o, "r"))
+			if e != nil || !strings.HasPrefix(o, "r") {
+				return "bad-op", "", "bad", false
+			}
+			buf := make([]byte, n)
+			k, err := c.Read(buf)
+			if err == io.EOF && k == 0 {
+				outs = append(outs, "eof")
+				break
+			}
+			if err != nil {
+				outs = append(outs, "err")
+				break
+			}
+			for j := 0; j < k; j++ {
+				if buf[j] != byte((got+j)%251) && mon == "" {
+					mon = fmt.Sprintf("byte at stream position %d altered", got+j)
+				}
+			}
+			got += k
+			outs = append(outs, strconv.Itoa(k))
+		}
+		return strings.Join(outs, " "), mon, "cf", got > 0
+	}
+	return "bad-op", "", "bad", false
+}
+
+type countingWriteConn struct {
+	*chunkConn
+	wrote *int
+}
+
+func (c *countingWriteConn) Write(p []byte) (int, error) { *c.wrote += len(p); return len(p), nil }
+
 func (framingComp) Exec(op string) (string, string, string, bool) {
 	f := strings.Fields(op)
+	if len(f) >= 1 && (f[0] == "mux" || f[0] == "cf") {
+		return execWrappers(f)
+	}
 	if len(f) != 4 || f[2] != "|" {
 		return "bad-op", "", "bad", false
 	}
@@ -208,6 +355,46 @@ func (framingComp) Gen(r *Rand, tier string, emit func(string)) {
 				emit(fmt.Sprintf("%s %d | %s", kind, s, joinInts(reads)))
 			}
 		}
+	}
+	// the two wrappers around logical streams
+	for _, sc := range []string{"e", "5,e", "e,5", "5,e,7,e", "e,5,e,e,9", "3,e,e", "e,e,4", "e,x", "x", "32768,e,1,e", "e,40000,e"} {
+		emit("mux " + sc)
+	}
+	for _, c := range []string{"- | w", "- | r8,w", "5 | w,r8,r8", "5 | r3,w,r8", "40000,5 | w,r8,r32768,r32768,w,r8", "5,- | r8,w", "32768,1 | r4096,w,r32768,r1"} {
+		emit("cf " + c)
+	}
+	for i := 0; i < n; i++ {
+		var sc []string
+		for j := 0; j < 1+r.Intn(8); j++ {
+			switch r.Intn(5) {
+			case 0:
+				sc = append(sc, "e")
+			case 1:
+				if r.Intn(4) == 0 {
+					sc = append(sc, "x")
+				} else {
+					sc = append(sc, "e")
+				}
+			default:
+				sc = append(sc, strconv.Itoa(1+r.Intn(40000)))
+			}
+		}
+		emit("mux " + strings.Join(sc, ","))
+		var chunks, ops []string
+		for j := 0; j < r.Intn(4); j++ {
+			chunks = append(chunks, strconv.Itoa(1+r.Intn(40000)))
+		}
+		if len(chunks) == 0 {
+			chunks = []string{"-"}
+		}
+		for j := 0; j < 1+r.Intn(6); j++ {
+			if r.Intn(3) == 0 {
+				ops = append(ops, "w")
+			} else {
+				ops = append(ops, "r"+strconv.Itoa(rsizes[r.Intn(len(rsizes))]))
+			}
+		}
+		emit("cf " + strings.Join(chunks, ",") + " | " + strings.Join(ops, ","))
 	}
 	for i := 0; i < n; i++ {
 		kind := []string{"bufio", "ws", "wsbuf"}[r.Intn(3)]
